@@ -100,7 +100,7 @@ def run(ctx):
     from .. import core as _core
     _core.run_proxied(ctx, _c13, 'R04m', ('R13h',))
     ctx.rule('R04r', 'the encoder reads the input only at the current position or under an in-range test: no IndexError at the '
-                     'end of the input (C13 R13n)', 4)
+                     'end of the input (C13 R13n)', 2)
     _core.run_proxied(ctx, _c13, 'R04r', ('R13n',))
 
     return 'other', (
@@ -133,6 +133,11 @@ def rules(ctx, repo, m, meths):
                      'with a control word (probe texts evaluated by the checker\'s own interpreter)', 2)
     ctx.rule('R04k', 'the partial encoder decides "this is LaTeX" with a strict token read: the walker it builds '
                      'has tolerant_parsing=False wherever a LatexWalkerTokenParseError handler depends on it', 1)
+    ctx.rule('R04t', 'the partial encoder reads the token that decides "keep this LaTeX" from a walker constructed in the same '
+                     'call from the string `s` that the position `pos` indexes (no walker remembered on the encoder)', 1)
+    ctx.rule('R04s', 'whether a rule callable accepts `u2lobj` is decided with inspect (getfullargspec / signature), which '
+                     'understands every callable; attributes of the code object (__code__, co_varnames) exist on plain '
+                     'functions only, so callable objects and functools.partial rules would silently not get the encoder', 1)
     ctx.rule('R04j', 'an explicitly empty option (conversion_rules=[]) is not replaced by the default: no '
                      '`param or <non-empty default>` on a parameter whose "not given" value is None', 1)
     ctx.rule('R04i', 'the state of the conversion loop (position, output) is created afresh by every '
@@ -158,6 +163,16 @@ def rules(ctx, repo, m, meths):
     seqname = unparse(cl.iter)
     assigns = [s for s in iter_own(init) if isinstance(s, ast.Assign)
                and any(unparse(t) == seqname for t in s.targets)]
+    scope = init
+    # the expansion may live in a helper method: `seq = self._expand()` whose single return is the list it builds
+    if len(assigns) == 1 and isinstance(assigns[0].value, ast.Call) and is_self_attr(assigns[0].value.func) and \
+            assigns[0].value.func.attr in meths and not assigns[0].value.args and not assigns[0].value.keywords:
+        h_ = meths[assigns[0].value.func.attr]
+        hr_ = [r_ for r_ in iter_own(h_) if isinstance(r_, ast.Return)]
+        if len(hr_) == 1 and isinstance(hr_[0].value, ast.Name):
+            scope, seqname = h_, hr_[0].value.id
+            assigns = [s for s in iter_own(scope) if isinstance(s, ast.Assign)
+                       and any(unparse(t) == seqname for t in s.targets)]
     ok_bind = len(assigns) == 1 and isinstance(assigns[0].value, ast.List) and not assigns[0].value.elts
     ctx.decide('R04a', ok_bind, m, assigns[-1] if assigns else init,
                '%s is bound once, to an empty list' % seqname,
@@ -165,10 +180,13 @@ def rules(ctx, repo, m, meths):
                'replaced between the user\'s list and the compiled rules'
                % (seqname, len(assigns), '; '.join(short(a, 50) for a in assigns)),
                construct='rule sequence binding')
-    muts = [c for c in iter_own(init) if isinstance(c, ast.Call) and call_recv(c) is not None
+    muts = [c for c in iter_own(scope) if isinstance(c, ast.Call) and call_recv(c) is not None
             and unparse(call_recv(c)) == seqname]
+    if scope is not init:
+        muts += [c for c in iter_own(init) if isinstance(c, ast.Call) and call_recv(c) is not None
+                 and unparse(call_recv(c)) == unparse(cl.iter)]
     bad_mut = [c for c in muts if call_name(c) not in ('append', 'extend')]
-    exp_loop = [l for l in iter_own(init) if isinstance(l, ast.For)
+    exp_loop = [l for l in iter_own(scope) if isinstance(l, ast.For)
                 and is_self_attr(l.iter, 'conversion_rules')]
     in_loop = all(any(p is exp_loop[0] for p in parents(c)) for c in muts) if exp_loop else False
     ctx.decide('R04a', bool(exp_loop) and not bad_mut and in_loop and bool(muts), m,
@@ -176,9 +194,10 @@ def rules(ctx, repo, m, meths):
                'rules appended/extended in the order of self.conversion_rules',
                'the rule sequence is modified by %s outside the in-order expansion loop'
                % [short(c, 40) for c in (bad_mut or muts)], construct='rule sequence expansion')
-    substores = [s for s in iter_own(init) if isinstance(s, (ast.Assign, ast.AugAssign)) and any(
+    scopes_ = [init] + ([scope] if scope is not init else [])
+    substores = [s for sc_ in scopes_ for s in iter_own(sc_) if isinstance(s, (ast.Assign, ast.AugAssign)) and any(
         isinstance(t, ast.Subscript) for t in (s.targets if isinstance(s, ast.Assign) else [s.target]))]
-    synth = [c for c in iter_own(init) if isinstance(c, ast.Call)
+    synth = [c for sc_ in scopes_ for c in iter_own(sc_) if isinstance(c, ast.Call)
              and call_name(c) == 'UnicodeToLatexConversionRule']
     ctx.decide('R04a', not synth and not substores, m, (synth or substores or [init])[0],
                'no rule object is synthesised or replaced in __init__',
@@ -445,6 +464,57 @@ def rules(ctx, repo, m, meths):
                        'handler is dead and malformed input (a trailing backslash, \\begin{ without name) is '
                        'copied through instead of being encoded' % (q_, short(tp) if tp is not None else 'the default (True)'),
                        construct='%s: helper walker' % q_)
+
+    # ------------------------------------------------------------ R04s
+    acc_ = m.functions.get('_callable_accepts_u2lobj_arg')
+    if acc_ is None:
+        ctx.unknown('R04s', m, None, '_callable_accepts_u2lobj_arg not found', construct='_callable_accepts_u2lobj_arg')
+    else:
+        p0_ = acc_.args.args[0].arg if acc_.args.args else None
+        insp = [c_ for c_ in iter_own(acc_) if isinstance(c_, ast.Call) and call_name(c_) in (
+            'getfullargspec', 'getargspec', 'signature') and c_.args and unparse(c_.args[0]) == p0_]
+        codeattr = [x_ for x_ in ast.walk(acc_) if (isinstance(x_, ast.Attribute) and x_.attr in (
+            '__code__', 'func_code', 'co_varnames', 'co_argcount')) or (isinstance(x_, ast.Constant) and x_.value in (
+                '__code__', 'func_code'))]
+        ctx.decide('R04s', bool(insp) and not codeattr, m, (codeattr or [acc_])[0],
+                   'decided by %s' % (short(insp[0], 40) if insp else ''),
+                   '_callable_accepts_u2lobj_arg reads %s instead of asking inspect: a callable object or functools.partial used '
+                   'as a rule (or as unknown_char_policy) has no code object, is taken not to accept u2lobj, and is then called '
+                   'without the encoder (TypeError, or a different replacement)'
+                   % (short(codeattr[0], 30) if codeattr else 'no signature of its argument'),
+                   construct='_callable_accepts_u2lobj_arg: signature source')
+
+    # ------------------------------------------------------------ R04t
+    # the token that decides "this is LaTeX" is read from the very string the position refers to
+    for q_, f_ in sorted(pm.functions.items()):
+        params_ = [a_.arg for a_ in f_.args.args]
+        if 's' not in params_ or 'pos' not in params_:
+            continue
+        try:
+            tcs = symex.Walker(is_sink=lambda c_: call_name(c_) in ('peek_token', 'next_token')).run(f_)
+        except symex.TooManyPaths:
+            continue
+        seen_t = set()
+        for cs in tcs:
+            full = symex.expand(cs.sub, cs.env)
+            mk = [c_ for c_ in ast.walk(full) if isinstance(c_, ast.Call) and call_name(c_) == 'make_token_reader']
+            src_ok = False
+            why = 'no make_token_reader(...) in ' + short(full, 60)
+            if mk:
+                recv = call_recv(mk[0])
+                if isinstance(recv, ast.Call) and call_name(recv) == 'LatexWalker' and recv.args and unparse(recv.args[0]) == 's':
+                    src_ok = True
+                else:
+                    why = 'the reader comes from %s' % short(recv, 60)
+            key_ = (id(cs.node), src_ok)
+            if key_ in seen_t:
+                continue
+            seen_t.add(key_)
+            ctx.decide('R04t', src_ok, pm, cs.node, 'token read from a walker built on the string `s` passed with `pos`',
+                       '%s reads the deciding token on the path [%s] from a walker that is not built, in this call, from the '
+                       'string `s` its position refers to (%s): a walker remembered on the encoder holds another string (the '
+                       'input before NFC normalisation), so the offset points at other characters and text is kept or '
+                       'encoded wrongly' % (q_, ' & '.join(cs.cond_src())[-100:], why), construct='%s: walker source' % q_)
 
     # ------------------------------------------------------------ R04j
     n_or = 0
